@@ -25,7 +25,9 @@ SymChoices ==
     [tag |-> "p",  syms |-> {Loc("p", "msg")}],
     [tag |-> "Aq", syms |-> {Loc("A", "msg"), Loc("q", "enumval")}] }
 
-Xt(e, t, ep, prov) == [e |-> e, t |-> t, ep |-> ep, prov |-> prov]
+(* d: how many message levels deep the extend block is declared (0 = at file level) *)
+Xt(e, t, ep, prov) == [e |-> e, t |-> t, ep |-> ep, prov |-> prov, d |-> 0]
+At(x, d) == [x EXCEPT !.d = d]
 M1 == Xt(<<"p", "M">>, 1, PkgP, "bp")
 M2 == Xt(<<"p", "M">>, 2, PkgP, "bp")
 G1 == Xt(<<"G">>, 1, PkgR, "br")
@@ -41,7 +43,13 @@ ExtChoices ==
     [tag |-> "g1m1", exts |-> <<G1, M1>>],
     [tag |-> "m2g1", exts |-> <<M2, G1>>],
     [tag |-> "x2",   exts |-> <<X2>>],
-    [tag |-> "x2m1", exts |-> <<X2, M1>>] }
+    [tag |-> "x2m1", exts |-> <<X2, M1>>],
+    (* declared inside nested messages; the table meets a file's extensions in the order of walk.Descriptors:
+       those inside messages before those at file level *)
+    [tag |-> "n2m1",   exts |-> <<At(M1, 2)>>],
+    [tag |-> "n3m1",   exts |-> <<At(M1, 3)>>],
+    [tag |-> "n2m1g1", exts |-> <<At(M1, 2), G1>>] }
+NestedTags == {"n2m1", "n3m1", "n2m1g1"}
 
 RangeOf(s) == {s[i] : i \in 1..Len(s)}
 (* providers in a fixed order *)
@@ -51,6 +59,9 @@ SelectSeq2(s, S) == SelectSeq(s, LAMBDA x : x \in S)
 GenId(pk, sc, xc) == "g_" \o pk.tag \o "_" \o sc.tag \o "_" \o xc.tag
 
 ExtFieldName(id, i) == CASE i = 1 -> "x1_" \o id [] i = 2 -> "x2_" \o id [] OTHER -> "x3_" \o id
+(* extension i declared d levels deep sits in message N<i>_<id> [.L2 [.L3]] *)
+NestName(id, i) == CASE i = 1 -> "N1_" \o id [] i = 2 -> "N2_" \o id [] OTHER -> "N3_" \o id
+NestPath(id, i, d) == SubSeq(<<NestName(id, i), "L2", "L3">>, 1, d)
 
 (* pad: that many further messages Pad<i>_<id>, declared BEFORE everything else; unique to the file, so they
    never collide and are left out of syms -- they only make the file's conflict check take long (C16: two
@@ -60,8 +71,9 @@ MkFileP(id, pkg, locals, exts, deps, pad) ==
    pkg  |-> pkg,
    syms |-> {[n |-> pkg \o <<l.n>>, k |-> l.k] : l \in locals}
             \cup {[n |-> pkg \o <<"E" \o l.n \o "_" \o id>>, k |-> "enum"] : l \in {m \in locals : m.k = "enumval"}}
-            \cup {[n |-> pkg \o <<ExtFieldName(id, i)>>, k |-> "ext"] : i \in 1..Len(exts)},
-   exts |-> [i \in 1..Len(exts) |-> [e |-> exts[i].e, t |-> exts[i].t, ep |-> exts[i].ep]],
+            \cup {[n |-> pkg \o NestPath(id, i, exts[i].d) \o <<ExtFieldName(id, i)>>, k |-> "ext"] : i \in 1..Len(exts)}
+            \cup UNION {{[n |-> pkg \o NestPath(id, i, j), k |-> "nest"] : j \in 1..exts[i].d} : i \in 1..Len(exts)},
+   exts |-> [i \in 1..Len(exts) |-> [e |-> exts[i].e, t |-> exts[i].t, ep |-> exts[i].ep, d |-> exts[i].d]],
    deps |-> deps]
 
 MkFile(id, pkg, locals, exts, deps) == MkFileP(id, pkg, locals, exts, deps, 0)
@@ -89,7 +101,8 @@ Named ==
 
 GenTriples == {<<pk, sc, xc>> \in PkgChoices \X SymChoices \X ExtChoices :
                  /\ pk.tag \in PkgTags /\ sc.tag \in SymTags /\ xc.tag \in ExtTags
-                 /\ ~(sc.syms = {} /\ xc.exts = <<>>)}
+                 /\ ~(sc.syms = {} /\ xc.exts = <<>>)
+                 /\ (xc.tag \in NestedTags => sc.tag = "0")}
 
 NeededNamed == ExtraIds \cup {"bp", "br", "c"}
 AllIds == {GenId(t[1], t[2], t[3]) : t \in GenTriples} \cup NeededNamed
